@@ -237,4 +237,6 @@ def run(ck):
     from props import C15 as _C15, C05 as _C05
 
     common.import_results(ck, _C15, "4", "IoLoopInner", "5")
+    # a source wrapped in a TransientSource is re-armed / re-registered with its wrapper (E3: shared with C18)
+    common.import_e3(ck, "5", lambda inst: True)
     common.import_results(ck, _C05, "1", "Poll::poll", "5")
